@@ -178,7 +178,12 @@ class AsyncClient(base_client.BaseClient):
                 base_client.connected_clients.remove(self)
             except ValueError:  # pragma: no cover
                 pass
-        await self._reset()
+        if self.state != 'disconnecting':
+            # a disconnect that is already in progress (this is a call from
+            # its disconnect handler) completes on its own; resetting here
+            # would let a new connection start, only to be reset again when
+            # the old one finishes
+            await self._reset()
 
     def start_background_task(self, target, *args, **kwargs):
         """Start a background task.
